@@ -61,7 +61,14 @@ JudgeC11(e) ==
                 \o (IF ns \ body # {} THEN << "C11:body:extra-nodes" \o q >> ELSE <<>>)
                 \o (IF f.exit \notin ns THEN << "C11:exit:not-in-body" \o q >> ELSE <<>>)
                 \o (IF f.exit >= 1 /\ f.exit <= NN(cfg) /\ KN(cfg, f.exit) # "ret" THEN << "C11:exit:not-a-return" \o q >> ELSE <<>>)
-                \o (IF \E i \in rets : f.exit \notin ObsReach(cfg, i) THEN << "C11:exit:return-not-merged" \o q >> ELSE <<>>)
+                \o (LET unmerged == { i \in rets : f.exit \notin ObsReach(cfg, i) }
+                        foreign(i) == \E k2 \in Rows(cfg) : k2 # k /\ cfg.funcs[k2].entry # f.entry /\ cfg.funcs[k2].exit = i
+                    IN IF unmerged = {} THEN <<>>
+                       \* a return that is the exit of another function has to stay a return: a function that runs into
+                       \* the exits of two other functions cannot have them merged (recorded finding, own key)
+                       ELSE IF foreign(f.exit) /\ \A i \in unmerged : foreign(i)
+                         THEN << "C11:exit:return-not-merged:the-function-reaches-the-exits-of-two-other-functions" >>
+                       ELSE << "C11:exit:return-not-merged" \o q >>)
                 \o (IF f.label \notin SeqSet(cfg.nodes[f.entry].labels) THEN << "C11:table:label-not-on-entry" >> ELSE <<>>)
            own(i) ==
              IF SeqSet(cfg.nodes[i].funcs) # { cfg.funcs[k].entry : k \in { r \in Rows(cfg) : i \in SeqSet(cfg.funcs[r].nodes) } }
